@@ -135,6 +135,7 @@ def scenario(job):
         w.nxt = 0
         w.async_proc = state != "inside-processor-sync"
         w.committed = []
+        w.explicit_stop = False
         ctx.sig("state=%s action=%s cfg=%s" % (state, action, cfg))
 
         def do_action():
@@ -325,9 +326,11 @@ def scenario(job):
                 acts += [1, 2]
             if next_timer(w.clock) is not None:
                 acts.append(3)
+            if action == "shutdown" and w.stopped_at is None and w.consumer._start_d is not None and not w.explicit_stop:
+                acts.append(4)  # the application loses patience and calls stop() while the graceful shutdown is under way
             if not acts:
                 break
-            a = ctx.choose("ev", 4, enabled=acts)
+            a = ctx.choose("ev", 5, enabled=acts)
             try:
                 if a == 0:
                     ps = w.client.pending
@@ -339,8 +342,13 @@ def scenario(job):
                     ctx.log("proc-fail")
                     d, w.pend = w.pend, None
                     d.errback(RuntimeError("processor failed"))
-                else:
+                elif a == 3:
                     ctx.log("timer", fire_next_timer(w.clock))
+                else:
+                    ctx.log("stop()-during-shutdown")
+                    w.explicit_stop = True
+                    w.consumer.stop()
+                    mark_stopped()
             except Exception as e:  # noqa
                 ctx.check(False, "no-exception-from-completion", repr(e))
                 return
@@ -375,7 +383,7 @@ def scenario(job):
             if len(w.sd) == 1:
                 ctx.check(w.stopped_at is not None or c._start_d is None, "shutdown-ends-stopped")
                 lc_, lp_ = w.sd_at[0]
-                if not isinstance(w.sd[0], Failure) and cfg != "nogroup":
+                if not isinstance(w.sd[0], Failure) and cfg != "nogroup" and not w.explicit_stop:
                     ctx.check(
                         _same(w.sd[0], lp_),
                         "shutdown-result-is-last-processed",
